@@ -377,6 +377,9 @@ def scenarios(tier, seed):
         for ops in itertools.product(SGPR_OPS, repeat=l):
             if "P" not in ops and l > 1 and tier == "quick":
                 continue  # quick: only histories that populate the caches at least once
+            if l == 3 and sum(o in ("O", "L") for o in ops) > 1:
+                continue  # two parameter replacements on top of a real RBF kernel: terms over three generations of exp atoms do
+                # not finish (25 inconclusive runs when tried); length-3 histories keep at most one replacement
             if "P" in ops:
                 last_p = max(i for i, o in enumerate(ops) if o == "P")
                 if not any(o in ("T", "O", "L") for o in ops[last_p + 1:]):
